@@ -307,7 +307,11 @@ where
         });
 
         // Prepack kernel if we'll be able to reuse packed weights.
-        let prepacked_kernel = if in_group.size(0) > 1 {
+        //
+        // Prepacking does not support zero points. These are only taken into
+        // account when the kernel is packed as part of the matrix
+        // multiplication.
+        let prepacked_kernel = if in_group.size(0) > 1 && kernel_quant.is_none() {
             Some(gemm.prepack_a_in(pool, kernel_mat.view()).auto_return(pool))
         } else {
             None
